@@ -73,7 +73,18 @@ Section Print.
     | t :: r => tok_text t ++ (match r with t' :: _ => if needs_space t t' then [32%N] else [] | [] => [] end) ++ untok r
     end.
   Definition print (e:pyexpr) : str := untok (toks e).
+  (* tokens each preceded by explicit whitespace (text modelled character by character) *)
+  Definition untokw (l:list (str * ptok)) (tail:str) : str :=
+    flat_map (fun wt => fst wt ++ tok_text (snd wt)) l ++ tail.
 End Print.
+Definition wtoks := list (str * ptok).
+Definition is_ws (w:str) : bool := forallb is_space w.
+Fixpoint seps_ok (prev:option ptok) (l:wtoks) : bool :=
+  match l with
+  | [] => true
+  | (w, t) :: r => is_ws w && (match prev with Some p => negb (needs_space p t) || (match w with [] => false | _ => true end) | None => true end)
+                   && seps_ok (Some t) r
+  end.
 
 Definition erase (t:ptok) : pytoken :=
   match t with TName s => Name s | TPunct c => Punct c | TStr _ s => StrTok s | TNum d => NumTok d end.
@@ -198,50 +209,59 @@ Definition strip_quotes (s:str) : str :=
   | [] => r
   end.
 
+(* keyword arguments: a list of (name, optional value); absent values are not rendered *)
+Definition kwlist (l : list (string * option pyexpr)) : list pyexpr := flat_map (fun kv => okw (fst kv) (snd kv)) l.
+Definition when (b:bool) (e:pyexpr) : option pyexpr := if b then Some e else None.
+Definition opt_s (s:option str) : option pyexpr := option_map Sr s.
+Definition opt_b (x:option bool) : option pyexpr := option_map PBool x.
+Definition opt_i (x:option ident) : option pyexpr := option_map id_ x.
+Definition or_none {A} (f:A -> pyexpr) (x:option A) : pyexpr := match x with Some a => f a | None => PNone end.
+Definition tri_v {A} (f:A -> pyexpr) (t:tri A) : option pyexpr :=
+  match t with Keep => None | SetNone => Some PNone | SetTo a => Some (f a) end.
+Definition only_true (d:option bool) : option pyexpr := match d with Some true => Some (PBool true) | _ => None end.
+
 (* _render_server_default *)
 Definition render_server_default (c:cfg) (d:sdefault) : pyexpr :=
   match d with
   | SdStr s => Sr (strip_quotes s)
   | SdText s => PCall [cfg_sa c; lit "text"] [Sr s]
-  | SdComputed s p => PCall [cfg_sa c; lit "Computed"] (Sr s :: okw "persisted" (option_map PBool p))
+  | SdComputed s p => PCall [cfg_sa c; lit "Computed"] (Sr s :: kwlist [("persisted"%string, opt_b p)])
   end.
 Definition positional_default (d:sdefault) : bool := match d with SdComputed _ _ => true | _ => false end.
+Definition pos_default (c:cfg) (d:option sdefault) : list pyexpr :=
+  match d with Some d => if positional_default d then [render_server_default c d] else [] | None => [] end.
+Definition kw_default (c:cfg) (d:option sdefault) : option pyexpr :=
+  match d with Some d => if positional_default d then None else Some (render_server_default c d) | None => None end.
 
 (* _render_column *)
 Definition render_column (c:cfg) (col:column) : pyexpr :=
   PCall [cfg_sa c; lit "Column"]
-    ([id_ (c_name col); repr_type c (c_type col)]
-     ++ (match c_default col with Some d => if positional_default d then [render_server_default c d] else [] | None => [] end)
-     ++ (match c_default col with Some d => if positional_default d then [] else [PKw (lit "server_default") (render_server_default c d)] | None => [] end)
-     ++ okw "autoincrement" (option_map PBool (c_autoinc col))
-     ++ [PKw (lit "nullable") (PBool (c_nullable col))]
-     ++ (if c_system col then [PKw (lit "system") (PBool true)] else [])
-     ++ okw "comment" (option_map Sr (truthy_s (c_comment col)))).
+    ([id_ (c_name col); repr_type c (c_type col)] ++ pos_default c (c_default col)
+     ++ kwlist [("server_default"%string, kw_default c (c_default col));
+                ("autoincrement"%string, opt_b (c_autoinc col));
+                ("nullable"%string, Some (PBool (c_nullable col)));
+                ("system"%string, when (c_system col) (PBool true));
+                ("comment"%string, opt_s (truthy_s (c_comment col)))]).
 
 (* the constraint renderers used inside create_table *)
-Definition opt_name (c:cfg) (n:cname) : list pyexpr := if has_name n then [PKw (lit "name") (rname c false n)] else [].
+Definition opt_name (c:cfg) (n:cname) : option pyexpr := when (has_name n) (rname c false n).
 Definition render_constraint (c:cfg) (k:tcons) : option pyexpr :=
   match k with
   | CPk cols n =>
       match cols with
       | [] => None
-      | _ => Some (PCall [cfg_sa c; lit "PrimaryKeyConstraint"] (map id_ cols ++ opt_name c n))
+      | _ => Some (PCall [cfg_sa c; lit "PrimaryKeyConstraint"] (map id_ cols ++ kwlist [("name"%string, opt_name c n)]))
       end
   | CFk cols refcols n onupdate ondelete initially deferrable use_alter match_ =>
       Some (PCall [cfg_sa c; lit "ForeignKeyConstraint"]
-        ([PList (map id_ cols); PList (map Sr refcols)] ++ opt_name c n
-         ++ okw "onupdate" (option_map Sr (truthy_s onupdate)) ++ okw "ondelete" (option_map Sr (truthy_s ondelete))
-         ++ okw "initially" (option_map Sr (truthy_s initially))
-         ++ (match deferrable with Some true => [PKw (lit "deferrable") (PBool true)] | _ => [] end)
-         ++ (if use_alter then [PKw (lit "use_alter") (PBool true)] else [])
-         ++ okw "match" (option_map Sr (truthy_s match_))))
+        ([PList (map id_ cols); PList (map Sr refcols)]
+         ++ kwlist [("name"%string, opt_name c n); ("onupdate"%string, opt_s (truthy_s onupdate)); ("ondelete"%string, opt_s (truthy_s ondelete));
+                    ("initially"%string, opt_s (truthy_s initially)); ("deferrable"%string, only_true deferrable);
+                    ("use_alter"%string, when use_alter (PBool true)); ("match"%string, opt_s (truthy_s match_))]))
   | CUq cols n deferrable initially =>
       Some (PCall [cfg_sa c; lit "UniqueConstraint"]
-        (map id_ cols
-         ++ (match deferrable with Some true => [PKw (lit "deferrable") (PBool true)] | _ => [] end)
-         ++ okw "initially" (option_map Sr (truthy_s initially))
-         ++ opt_name c n))
-  | CCk sqltext n => Some (PCall [cfg_sa c; lit "CheckConstraint"] (Sr sqltext :: opt_name c n))
+        (map id_ cols ++ kwlist [("deferrable"%string, only_true deferrable); ("initially"%string, opt_s (truthy_s initially)); ("name"%string, opt_name c n)]))
+  | CCk sqltext n => Some (PCall [cfg_sa c; lit "CheckConstraint"] ([Sr sqltext] ++ kwlist [("name"%string, opt_name c n)]))
   end.
 Fixpoint somes {A} (l : list (option A)) : list A :=
   match l with [] => [] | Some a :: r => a :: somes r | None :: r => somes r end.
@@ -250,76 +270,73 @@ Fixpoint somes {A} (l : list (option A)) : list A :=
    the harness compares them as a set) *)
 Definition render_create_table (c:cfg) (t:table) : pyexpr :=
   PCall [cfg_op c; lit "create_table"]
-    (id_ (t_name t) :: map (render_column c) (t_cols t) ++ somes (map (render_constraint c) (t_cons t))
-     ++ okw "schema" (option_map id_ (truthy (t_schema t)))
-     ++ okw "comment" (option_map Sr (truthy_s (t_comment t)))
-     ++ (match t_prefixes t with [] => [] | ps => [PKw (lit "prefixes") (PList (map (PStr ViaRawQuote) ps))] end)
-     ++ okw "if_not_exists" (option_map PBool (t_if_not_exists t))).
+    ((id_ (t_name t) :: map (render_column c) (t_cols t) ++ somes (map (render_constraint c) (t_cons t)))
+     ++ kwlist [("schema"%string, opt_i (truthy (t_schema t)));
+                ("comment"%string, opt_s (truthy_s (t_comment t)));
+                ("prefixes"%string, match t_prefixes t with [] => None | ps => Some (PList (map (PStr ViaRawQuote) ps)) end);
+                ("if_not_exists"%string, opt_b (t_if_not_exists t))]).
 
 Definition render_drop_table (c:cfg) (n:ident) (schema:option ident) (if_exists:option bool) : pyexpr :=
   PCall [cfg_op c; lit "drop_table"]
-    (id_ n :: okw "schema" (option_map id_ (truthy schema)) ++ okw "if_exists" (option_map PBool if_exists)).
+    ([id_ n] ++ kwlist [("schema"%string, opt_i (truthy schema)); ("if_exists"%string, opt_b if_exists)]).
 
 Definition render_ixexpr (c:cfg) (e:ixexpr) : pyexpr :=
   match e with IxCol i => id_ i | IxExpr s => PCall [cfg_sa c; lit "literal_column"] [Sr s] end.
-
-Definition tri_kw {A} (k:string) (f:A -> pyexpr) (t:tri A) : list pyexpr :=
-  match t with Keep => [] | SetNone => [PKw (lit k) PNone] | SetTo a => [PKw (lit k) (f a)] end.
 
 (* the renderers of the table-level operations; hb = autogen_context._has_batch *)
 Definition render_tbl_op (c:cfg) (hb:bool) (tn:ident) (schema:option ident) (o:tbl_op) : pyexpr :=
   let p := aprefix c hb in
   let tbl := if hb then [] else [id_ tn] in
-  let sch := if hb then [] else okw "schema" (option_map id_ (truthy schema)) in
+  let sch := if hb then None else opt_i (truthy schema) in
   match o with
-  | OAddColumn col => PCall [p; lit "add_column"] (tbl ++ [render_column c col] ++ sch)
-  | ODropColumn cn => PCall [p; lit "drop_column"] (tbl ++ [id_ cn] ++ sch)
+  | OAddColumn col => PCall [p; lit "add_column"] ((tbl ++ [render_column c col]) ++ kwlist [("schema"%string, sch)])
+  | ODropColumn cn => PCall [p; lit "drop_column"] ((tbl ++ [id_ cn]) ++ kwlist [("schema"%string, sch)])
   | OAlterColumn a =>
       PCall [p; lit "alter_column"]
-        (tbl ++ [id_ (a_col a)]
-         ++ okw "existing_type" (option_map (repr_type c) (a_existing_type a))
-         ++ tri_kw "server_default" (render_server_default c) (a_server_default a)
-         ++ okw "new_column_name" (option_map id_ (a_new_name a))
-         ++ okw "type_" (option_map (repr_type c) (a_type a))
-         ++ okw "nullable" (option_map PBool (a_nullable a))
-         ++ tri_kw "comment" Sr (a_comment a)
-         ++ okw "existing_comment" (option_map Sr (a_existing_comment a))
-         ++ (match a_nullable a with None => okw "existing_nullable" (option_map PBool (a_existing_nullable a)) | Some _ => [] end)
-         ++ okw "autoincrement" (option_map PBool (a_autoincrement a))
-         ++ (match a_server_default a with Keep => okw "existing_server_default" (option_map (render_server_default c) (a_existing_server_default a)) | _ => [] end)
-         ++ sch)
+        ((tbl ++ [id_ (a_col a)])
+         ++ kwlist [("existing_type"%string, option_map (repr_type c) (a_existing_type a));
+                    ("server_default"%string, tri_v (render_server_default c) (a_server_default a));
+                    ("new_column_name"%string, opt_i (a_new_name a));
+                    ("type_"%string, option_map (repr_type c) (a_type a));
+                    ("nullable"%string, opt_b (a_nullable a));
+                    ("comment"%string, tri_v Sr (a_comment a));
+                    ("existing_comment"%string, opt_s (a_existing_comment a));
+                    ("existing_nullable"%string, match a_nullable a with None => opt_b (a_existing_nullable a) | Some _ => None end);
+                    ("autoincrement"%string, opt_b (a_autoincrement a));
+                    ("existing_server_default"%string,
+                       match a_server_default a with
+                       | Keep => option_map (render_server_default c) (a_existing_server_default a)
+                       | _ => None end);
+                    ("schema"%string, sch)])
   | OCreateIndex n exprs unique ine =>
       PCall [p; lit "create_index"]
-        ([rname c hb n] ++ tbl ++ [PList (map (render_ixexpr c) exprs)]
-         ++ [PKw (lit "unique") (PBool (match unique with Some b => b | None => false end))]
-         ++ sch ++ okw "if_not_exists" (option_map PBool ine))
+        (([rname c hb n] ++ tbl ++ [PList (map (render_ixexpr c) exprs)])
+         ++ kwlist [("unique"%string, Some (PBool (match unique with Some b => b | None => false end)));
+                    ("schema"%string, sch); ("if_not_exists"%string, opt_b ine)])
   | ODropIndex n ie =>
       PCall [p; lit "drop_index"]
-        ([rname c hb n] ++ (if hb then [] else [PKw (lit "table_name") (id_ tn)]) ++ sch ++ okw "if_exists" (option_map PBool ie))
+        ([rname c hb n] ++ kwlist [("table_name"%string, if hb then None else Some (id_ tn)); ("schema"%string, sch); ("if_exists"%string, opt_b ie)])
   | OCreateUnique n cols deferrable initially =>
       PCall [p; lit "create_unique_constraint"]
-        ([rname c hb n] ++ tbl ++ [PList (map id_ cols)]
-         ++ (match deferrable with Some true => [PKw (lit "deferrable") (PBool true)] | _ => [] end)
-         ++ okw "initially" (option_map Sr (truthy_s initially)) ++ sch)
+        (([rname c hb n] ++ tbl ++ [PList (map id_ cols)])
+         ++ kwlist [("deferrable"%string, only_true deferrable); ("initially"%string, opt_s (truthy_s initially)); ("schema"%string, sch)])
   | OCreateFk f =>
       PCall [p; lit "create_foreign_key"]
-        ([rname c hb (f_name f)] ++ tbl ++ [id_ (f_referent f); PList (map id_ (f_local f)); PList (map id_ (f_remote f))]
-         ++ (if hb then [] else okw "source_schema" (option_map Sr (f_source_schema f)))
-         ++ okw "referent_schema" (option_map Sr (f_referent_schema f))
-         ++ okw "onupdate" (option_map Sr (f_onupdate f)) ++ okw "ondelete" (option_map Sr (f_ondelete f))
-         ++ okw "initially" (option_map Sr (f_initially f)) ++ okw "deferrable" (option_map PBool (f_deferrable f))
-         ++ okw "use_alter" (option_map PBool (f_use_alter f)) ++ okw "match" (option_map Sr (f_match f)))
+        (([rname c hb (f_name f)] ++ tbl ++ [id_ (f_referent f); PList (map id_ (f_local f)); PList (map id_ (f_remote f))])
+         ++ kwlist [("source_schema"%string, if hb then None else opt_s (f_source_schema f));
+                    ("referent_schema"%string, opt_s (f_referent_schema f));
+                    ("onupdate"%string, opt_s (f_onupdate f)); ("ondelete"%string, opt_s (f_ondelete f));
+                    ("initially"%string, opt_s (f_initially f)); ("deferrable"%string, opt_b (f_deferrable f));
+                    ("use_alter"%string, opt_b (f_use_alter f)); ("match"%string, opt_s (f_match f))])
   | ODropConstraint n ty =>
-      PCall [p; lit "drop_constraint"] ([rname c hb n] ++ tbl ++ sch ++ okw "type_" (option_map id_ (truthy ty)))
+      PCall [p; lit "drop_constraint"] (([rname c hb n] ++ tbl) ++ kwlist [("schema"%string, sch); ("type_"%string, opt_i (truthy ty))])
   | OCreateTableComment comment existing =>
       PCall [p; lit "create_table_comment"]
-        (tbl ++ [match comment with Some s => Sr s | None => PNone end]
-         ++ [PKw (lit "existing_comment") (match existing with Some s => Sr s | None => PNone end)]
-         ++ (if hb then [] else [PKw (lit "schema") (match schema with Some i => id_ i | None => PNone end)]))
+        ((tbl ++ [or_none Sr comment])
+         ++ kwlist [("existing_comment"%string, Some (or_none Sr existing)); ("schema"%string, if hb then None else Some (or_none id_ schema))])
   | ODropTableComment existing =>
       PCall [p; lit "drop_table_comment"]
-        (tbl ++ [PKw (lit "existing_comment") (match existing with Some s => Sr s | None => PNone end)]
-         ++ (if hb then [] else [PKw (lit "schema") (match schema with Some i => id_ i | None => PNone end)]))
+        (tbl ++ kwlist [("existing_comment"%string, Some (or_none Sr existing)); ("schema"%string, if hb then None else Some (or_none id_ schema))])
   end.
 
 (* render_op / _render_modify_table / _render_cmd_body *)
@@ -334,7 +351,7 @@ Definition render_top (c:cfg) (o:top_op) : list pystmt :=
       | _ =>
         if cfg_batch c then
           [SWith (PCall [lit "op"; lit "batch_alter_table"]   (* the prefix is hard-coded in _render_modify_table *)
-                  [id_ tn; PKw (lit "schema") (match s with Some i => id_ i | None => PNone end)])
+                  ([id_ tn] ++ kwlist [("schema"%string, Some (or_none id_ s))]))
                  (map (fun x => render_tbl_op c true (fst (fst x)) (snd (fst x)) (snd x)) ops)]
         else map (fun x => SExpr (render_tbl_op c false (fst (fst x)) (snd (fst x)) (snd x))) ops
       end
@@ -365,9 +382,9 @@ Fixpoint get_kw (k:str) (l:list pyexpr) : option pyexpr :=
 Definition nth_pos (i:nat) (l:list pyexpr) : option pyexpr :=
   match nth_error l i with Some (PKw _ _) => None | x => x end.
 (* a parameter that may be passed positionally (i-th) or by keyword *)
-Definition arg (i:nat) (k:string) (l:list pyexpr) : option pyexpr :=
-  match nth_pos i l with Some e => Some e | None => get_kw (lit k) l end.
 Definition kwarg (k:string) (l:list pyexpr) : option pyexpr := get_kw (lit k) l.
+Definition arg (i:nat) (k:string) (l:list pyexpr) : option pyexpr :=
+  match nth_pos i l with Some e => Some e | None => kwarg k l end.
 Fixpoint positionals (l:list pyexpr) : list pyexpr :=
   match l with [] => [] | PKw _ _ :: _ => [] | e :: r => e :: positionals r end.
 
